@@ -12,7 +12,9 @@ func HarnessC01a() {
 		cache = &vCache{}
 	}
 	cfg := symConfig(st, cache)
-	cur, err := NewRoot(&CreateRemoteOptions{BranchFactor: bf}).LoadMast(vctx, cfg)
+	fm := verifBoundOr("FMT", 0) // 0 binary, 1 v1marshaler (raw two-stage), 2 v1marshaler (registered types)
+	cfg.UnmarshalerUsesRegisteredTypes = fm == 2
+	cur, err := NewRoot(&CreateRemoteOptions{BranchFactor: bf, NodeFormat: fmtOf(fm)}).LoadMast(vctx, cfg)
 	verifAssert("C01.new.err", err == nil)
 	md := &symModel{}
 	probe := symKey{verifNondetKey("probe")}
